@@ -974,6 +974,12 @@ func (eval Evaluator) MulThenAdd(op0 *rlwe.Ciphertext, op1 rlwe.Operand, opOut *
 			if cmplxBig.IsInt() {
 				scaleRLWE = rlwe.NewScale(1)
 			} else {
+
+				// opOut is scaled before op0 is read: op0 cannot be the receiver
+				if op0 == opOut {
+					return fmt.Errorf("cannot MulThenAdd: opOut must be different from op0 when op1 is not a Gaussian integer")
+				}
+
 				scaleRLWE = rlwe.NewScale(ringQ.SubRings[level].Modulus)
 
 				for i := 1; i < eval.GetParameters().LevelsConsumedPerRescaling(); i++ {
@@ -1004,6 +1010,11 @@ func (eval Evaluator) MulThenAdd(op0 *rlwe.Ciphertext, op1 rlwe.Operand, opOut *
 
 		if err != nil {
 			return fmt.Errorf("cannot MulThenAdd: %w", err)
+		}
+
+		// opOut is scaled before op0 is read (and the encoded op1 is then multiplied as a plaintext): op0 cannot be the receiver
+		if op0 == opOut {
+			return fmt.Errorf("cannot MulThenAdd: opOut must be different from op0")
 		}
 
 		// opOut may hold a non-relinearized accumulator of higher degree than op0,
